@@ -385,6 +385,7 @@ class PaperFn(WalletFn):
 
 
 CLASS_BYTES = {}
+SIG_DEFAULTS = {}
 
 NS_FIELDS = {"command": "command", "mnemonic_len": "mnemonic_len", "password": "password", "testnet": "testnet",
              "master_xprv": "master_xprv", "mnemonic": "mnemonic", "seed_hex": "seed_hex", "entropy_hex": "entropy_hex",
